@@ -34,11 +34,13 @@ pub const INT_FROM_FIX: u16 = 16;
 pub const INT_LOSSY_FIX: u16 = 17;
 pub const FROM_BOOL: u16 = 18;
 pub const FLOAT_FROM_FIX: u16 = 19;
-pub const OP_NAMES: [&str; 20] = [
+pub const CMP_F16: u16 = 20;
+pub const CMP_BF16: u16 = 21;
+pub const OP_NAMES: [&str; 22] = [
     "conv_fixed_fixed", "conv_fixed_int", "conv_int_fixed", "conv_bool_fixed", "from_fixed_fixed", "lossy_fixed_fixed",
     "cmp_fixed_fixed", "cmp_fixed_int", "cmp_f32", "cmp_f64", "cmp_same_type", "f32_to_fixed", "f64_to_fixed", "fixed_to_f32",
     "fixed_to_f64", "from_int_infallible", "int_from_fixed_infallible", "int_lossy_from_fixed", "from_bool_infallible",
-    "float_from_fixed_infallible",
+    "float_from_fixed_infallible", "cmp_f16", "cmp_bf16",
 ];
 
 #[allow(dead_code)]
